@@ -21,6 +21,14 @@ Contents
                         holonomy round every (i,j)-orbit raised to `v_ij` trivial), spanning-tree
                         edges gauged to the identity, transitive assignments only, orbits of the
                         remaining global relabelling group `S_j` counted by Burnside's lemma.
+* `adjacentDivides`, `adjacentPreserved`, `branchingIsFloor` — what `derived::cover` does with a
+                        compatible sheet map whose orbit lengths do not divide the base degrees
+* bases with several components (outside the quantifier of the property; the library's
+  `fundamental_group` then presents the free product of the groups of the components, i.e. the
+  group of the components joined at base points): `connectedJoined` (the cover is connected once
+  the chambers of one sheet are joined across the components), `isoOverJoined` (isomorphism over
+  the base inducing ONE permutation of the sheets), `countCoversJoined` (the same count with a
+  spanning forest: conjugacy classes of index-`j` subgroups of the free product).
 -/
 import DSymVerif.Spec.C02
 
@@ -402,13 +410,12 @@ def factorial : Nat → Nat
   | 0 => 1
   | n + 1 => (n + 1) * factorial n
 
-/-- number of isomorphism classes (over the base) of connected `j`-sheeted coverings of the
-    connected complete symbol `g` -/
-def countCovers (g : G) (j : Nat) : Nat :=
+/-- the count with the gauge fixed along the edges `tree s` -/
+def countCoversWith (tree : Search → List Nat) (g : G) (j : Nat) : Nat :=
   if j == 0 then 0 else
   let perms := allPerms j
   let s : Search := { g := g, j := j, perms := perms, invols := perms.filter Perm.isInvolution }
-  let tree := treeEdges s
+  let tree := tree s
   -- free edges in lexicographic order, numbered from 1
   let free0 := g.chambers.flatMap fun d => g.indices.filterMap fun i =>
     if d ≤ g.op i d && !tree.contains (s.idx d i) then some (d, i) else none
@@ -430,12 +437,142 @@ def countCovers (g : G) (j : Nat) : Nat :=
   if !((checks.getD 0 []).all fun o => orbitOK s sig0 o.1 o.2.1 o.2.2) then 0
   else searchGo s checks free sig0 / factorial j
 
+/-- number of isomorphism classes (over the base) of connected `j`-sheeted coverings of the
+    connected complete symbol `g` -/
+def countCovers (g : G) (j : Nat) : Nat := countCoversWith treeEdges g j
+
 /-- histogram check: for every sheet number 1..k the number of listed covers with that many
     sheets equals the independent count -/
 def countsAgree (base : G) (k : Nat) (cs : List G) : Bool :=
   (List.range k).all fun j0 =>
     let j := j0 + 1
     (cs.filter fun c => sheets base c == some j).length == countCovers base j
+
+/-! ### `derived::cover` with a compatible sheet map: the branching number is `⌊m / r⌋` -/
+
+/-- adjacent pairs: the orbit length of every chamber of the cover divides the degree of the base -/
+def adjacentDivides (base cov : G) : Bool :=
+  (List.range cov.dim).all fun i => cov.chambers.all fun d =>
+    match cov.orbitLen i (i + 1) d, mDef base i (i + 1) (proj base.size d) with
+    | some r, some m => r != 0 && m % r == 0
+    | _, _ => false
+
+/-- adjacent pairs: the degree of every chamber of the cover is that of its projection -/
+def adjacentPreserved (base cov : G) : Bool :=
+  (List.range cov.dim).all fun i => cov.chambers.all fun d =>
+    match mDef cov i (i + 1) d with
+    | some m => mDef base i (i + 1) (proj base.size d) == some m
+    | none => false
+
+/-- the branching number of every chamber of the cover is `⌊m / r⌋`, `m` the degree of the base at
+    the projection and `r` the orbit length in the cover -/
+def branchingIsFloor (base cov : G) : Bool :=
+  (List.range cov.dim).all fun i => cov.chambers.all fun d =>
+    match cov.orbitLen i (i + 1) d, mDef base i (i + 1) (proj base.size d) with
+    | some r, some m => r != 0 && cov.v i d == m / r
+    | _, _ => false
+
+/-! ### bases with several components -/
+
+/-- the sheet of a chamber of the cover -/
+def sheetOf (n d : Nat) : Nat := (d - 1) / n
+
+/-- worklist search in the cover with, in addition to the operations, all chambers of the same
+    sheet as neighbours -/
+def bfsJ (base g : G) : Nat → List Nat → Array Bool → Array Bool
+  | 0, _, seen => seen
+  | _, [], seen => seen
+  | f + 1, d :: rest, seen =>
+    let k := sheetOf base.size d
+    let nbrs := (g.indices.map fun i => g.op i d) ++ (base.chambers.map fun b => k * base.size + b)
+    let acc := nbrs.foldl (fun (acc : List Nat × Array Bool) e =>
+      if e == 0 || e > g.size || acc.2.getD e true then acc
+      else (e :: acc.1, acc.2.setIfInBounds e true)) (rest, seen)
+    bfsJ base g f acc.1 acc.2
+
+/-- the cover is connected once, for every sheet, the chambers of that sheet are joined across
+    the components of the base (for a connected base whose cover keeps the sheet along a spanning
+    tree this is plain connectedness) -/
+def connectedJoined (base g : G) : Bool :=
+  base.size != 0 &&
+  let seen := bfsJ base g (g.size + 1) [1] ((Array.replicate (g.size + 1) false).setIfInBounds 1 true)
+  g.chambers.all fun d => seen.getD d false
+
+/-- `extendIso` with the additional rule that the image of one chamber of a sheet fixes the image
+    of every chamber of that sheet: `(k, b) ↦ (k', b)` for all `b` -/
+def extendIsoJ (base c1 c2 : G) (start : Nat) : Option (Array Nat) :=
+  let f0 := (Array.replicate (c1.size + 1) 0).setIfInBounds 1 start
+  let put (f : Option (Array Nat)) (e fe : Nat) : Option (Array Nat) :=
+    match f with
+    | none => none
+    | some f =>
+      if f.getD e 0 == 0 then some (f.setIfInBounds e fe)
+      else if f.getD e 0 == fe then some f else none
+  let round (f : Option (Array Nat)) : Option (Array Nat) :=
+    c1.chambers.foldl (fun (f : Option (Array Nat)) d =>
+      match f with
+      | none => none
+      | some f =>
+        let fd := f.getD d 0
+        if fd == 0 then some f else
+        let f1 := c1.indices.foldl (fun (f : Option (Array Nat)) i => put f (c1.op i d) (c2.op i fd)) (some f)
+        base.chambers.foldl (fun (f : Option (Array Nat)) b =>
+          put f (sheetOf base.size d * base.size + b) (sheetOf base.size fd * base.size + b)) f1) f
+  (List.range c1.size).foldl (fun f _ => round f) (some f0)
+
+/-- `c1 ≅ c2` over the base by a bijection commuting with operations, branching numbers and
+    projections and inducing one permutation of the sheets -/
+def isoOverJoined (base c1 c2 : G) : Bool :=
+  c1.size == c2.size && c1.dim == c2.dim &&
+  match sheets base c2 with
+  | none => false
+  | some k =>
+    (List.range k).any fun s =>
+      let start := 1 + s * base.size
+      match extendIsoJ base c1 c2 start with
+      | none => false
+      | some f =>
+        c1.chambers.all (fun d => 1 ≤ f.getD d 0 && f.getD d 0 ≤ c2.size) &&
+        c2.chambers.all (fun e => (c1.chambers.filter fun d => f.getD d 0 == e).length == 1) &&
+        c1.indices.all (fun i => c1.chambers.all fun d => f.getD (c1.op i d) 0 == c2.op i (f.getD d 0)) &&
+        (List.range c1.dim).all (fun i => c1.chambers.all fun d => c1.v i d == c2.v i (f.getD d 0)) &&
+        c1.chambers.all (fun d => proj base.size (f.getD d 0) == proj base.size d) &&
+        c1.chambers.all (fun d => c1.chambers.all fun d' =>
+          sheetOf base.size d != sheetOf base.size d' ||
+            sheetOf base.size (f.getD d 0) == sheetOf base.size (f.getD d' 0))
+
+def pairwiseNonIsomorphicJoined (base : G) (cs : List G) : Bool :=
+  let a := cs.toArray
+  (List.range a.size).all fun x => (List.range a.size).all fun y =>
+    !(x < y) || !(isoOverJoined base (a.getD x base) (a.getD y base))
+
+/-- spanning forest of the base: breadth-first search from the least chamber of every component
+    (the set of canonical edge slots `idx (min d e) i` used) -/
+def forestEdges (s : Search) : List Nat :=
+  let g := s.g
+  let rec go : Nat → List Nat → Array Bool → List Nat → Array Bool × List Nat
+    | 0, _, seen, acc => (seen, acc)
+    | _, [], seen, acc => (seen, acc)
+    | f + 1, d :: rest, seen, acc =>
+      let r := g.indices.foldl (fun (r : List Nat × Array Bool × List Nat) i =>
+        let e := g.op i d
+        if e == 0 || e > g.size || r.2.1.getD e true then r
+        else (r.1 ++ [e], r.2.1.setIfInBounds e true, s.idx (min d e) i :: r.2.2)) (rest, seen, acc)
+      go f r.1 r.2.1 r.2.2
+  (g.chambers.foldl (fun (st : Array Bool × List Nat) d =>
+    if st.1.getD d true then st
+    else go (g.size + 1) [d] (st.1.setIfInBounds d true) st.2)
+    (Array.replicate (g.size + 1) false, [])).2
+
+/-- number of conjugacy classes of subgroups of index `j` of the free product of the orbifold
+    groups of the components of `g` = classes of `j`-sheeted coverings connected in the sense of
+    `connectedJoined`, up to `isoOverJoined` -/
+def countCoversJoined (g : G) (j : Nat) : Nat := countCoversWith forestEdges g j
+
+def countsAgreeJoined (base : G) (k : Nat) (cs : List G) : Bool :=
+  (List.range k).all fun j0 =>
+    let j := j0 + 1
+    (cs.filter fun c => sheets base c == some j).length == countCoversJoined base j
 
 /-! ### triviality of a finitely presented group (as far as the covers of C05 need it) -/
 
